@@ -253,7 +253,12 @@ def gen_case(rng, future_ok: bool = True) -> dict:
         if s % US == 0 and rng.random() < .1:
             c["start"]["dot0"] = True        # "…:00.0Z"
         if future:
+            # outside C08's quantifier, compared model-vs-code only; keep the (negative) period count small so
+            # that the real datetime arithmetic stays inside year 1…9999 (not modelled)
             c["future"] = True
+            c["sd"], c["ts"] = 960, 240
+            if c["mup"] is not None and c["mup"] > 3600:
+                c["mup"] = 7
     return c
 
 
@@ -290,9 +295,12 @@ def run_direct(c) -> list[dict]:
     ref = StreamTimingReference(media_name="ref", media_duration=c["sd"] * 10, num_media_segments=10,
                                 segment_duration=c["sd"], timescale=c["ts"])
     out = []
+    opts = None
     for n in c["nows"]:
         try:
-            t = DashTiming(real_now(n), ref, real_options(c))
+            if opts is None:
+                opts = real_options(c)       # calculate_live_params only reads the options
+            t = DashTiming(real_now(n), ref, opts)
             off = t.availabilityStartTime.utcoffset() // datetime.timedelta(minutes=1)
             out.append({"now": n, "ast": to_us(t.availabilityStartTime), "off": off,
                         "e": t.elapsedTime // ONE_US, "tsbd": t.timeShiftBufferDepth,
@@ -554,24 +562,57 @@ def corpus_cases():
     return out
 
 
+WITNESSES = [
+    # D7a, D16 (fixed), zero elapsed, start=today/mup=7 across the 00:01:00 roll-over, epoch one minute after the epoch
+    {"nows": [1577840400200000], "start": {"utc": 1577836800000000, "off": 0}, "depth": -5, "mup": None,
+     "leeway": None, "sd": 960, "ts": 240},
+    {"nows": [1577840400200000, 1577840400500000], "start": {"utc": 1577840399500000, "off": 0}, "depth": None,
+     "mup": None, "leeway": None, "sd": 960, "ts": 240},
+    {"nows": [1577840400000000, 1577840400000001], "start": {"utc": 1577840400000000, "off": -480}, "depth": 30,
+     "mup": 4, "leeway": 0, "sd": 960, "ts": 240},
+    {"nows": [1577836859000000, 1577836860000000], "start": "today", "depth": None, "mup": 7, "leeway": None,
+     "sd": 960, "ts": 240},
+    {"nows": [MINUTE, MINUTE + 1, DAY - 1, DAY], "start": "epoch", "depth": None, "mup": None, "leeway": None,
+     "sd": 960, "ts": 240},
+    {"nows": [1577840400200000], "start": "year", "depth": None, "mup": None, "leeway": 16, "sd": 10, "ts": 100},
+]
+
+
 def boundary_cases(ctx):
-    """deterministic sweep: day boundaries × {−1 µs, 0, +59.999999 s, +60 s} for every symbolic start"""
+    """deterministic sweep of day boundaries × {−1 µs, 0, +59.999999 s, +60 s}: the special days of 15 years in
+    the quick tier; **every** day 1970-01-02 … 2100-12-31 in the thorough tier (today always, month/year on the
+    first two days of the month/year, one more start kind in rotation)"""
     rng = ctx.rng("boundaries")
+    out = []
+
+    def add(day, start):
+        t = day * DAY
+        out.append({"nows": [t - 1, t, t + MINUTE - 1, t + MINUTE], "start": start, "depth": rng.choice(DEPTHS),
+                    "mup": rng.choice(MUPS), "leeway": None, "sd": 960, "ts": 240})
+
+    if ctx.thorough:
+        last = datetime.date(2100, 12, 31).toordinal() - EPOCH_ORD
+        for day in range(1, last + 1):
+            dt = datetime.date.fromordinal(EPOCH_ORD + day)
+            add(day, "today")
+            if dt.day <= 2:
+                add(day, "month")
+            if dt.month == 1 and dt.day <= 2:
+                add(day, "year")
+            add(day, SYMBOLIC[day % 5])
+        return out
     days = set()
-    years = range(1970, 2101) if ctx.thorough else SPECIAL_YEARS
-    for y in years:
-        for (m, d) in ((1, 1), (3, 1), (12, 31)) + (((2, 29),) if _cal.isleap(y) else ((2, 28),)):
+    for y in SPECIAL_YEARS:
+        for (m, d) in ((1, 1), (1, 2), (3, 1), (12, 31)) + (((2, 29),) if _cal.isleap(y) else ((2, 28),)):
             days.add(datetime.date(y, m, d).toordinal() - EPOCH_ORD)
         m = rng.randrange(1, 13)
         days.add(datetime.date(y, m, 1).toordinal() - EPOCH_ORD)
-    out = []
+        days.add(datetime.date(y, m, 2).toordinal() - EPOCH_ORD)
     for day in sorted(days):
         if day == 0:
             continue
-        t = day * DAY
         for start in SYMBOLIC:
-            out.append({"nows": [t - 1, t, t + MINUTE - 1, t + MINUTE], "start": start, "depth": rng.choice(DEPTHS),
-                        "mup": rng.choice(MUPS), "leeway": None, "sd": 960, "ts": 240})
+            add(day, start)
     return out
 
 
@@ -622,8 +663,8 @@ def ch_livetiming(ctx) -> Channel:
         "history of >= 2 clock values in which at least one guard fired (day/month/year/zero-elapsed back-off, "
         "depth clamp, publishTime quantisation, disabled mup, fractional or offset start); distinct by full case"))
     rng = ctx.rng("livetiming")
-    cases = corpus_cases() + boundary_cases(ctx)
-    cases += [gen_case(rng) for _ in range(ctx.scale(2500, 40000))]
+    cases = corpus_cases() + [dict(w) for w in WITNESSES] + boundary_cases(ctx)
+    cases += [gen_case(rng) for _ in range(ctx.scale(5000, 60000))]
     evaluate_direct(cases, ch)
     return ch
 
@@ -913,7 +954,7 @@ def ch_manifest(ctx) -> Channel:
         ch.errors.append(f"app boot: {type(e).__name__}: {e}")
         return ch
     rng = ctx.rng("manifest")
-    cases = fixed_http_cases(http) + [gen_http_case(rng, http) for _ in range(ctx.scale(350, 6000))]
+    cases = fixed_http_cases(http) + [gen_http_case(rng, http) for _ in range(ctx.scale(600, 8000))]
     try:
         evaluate_http(http, cases, ch)
     finally:
